@@ -26,6 +26,8 @@ WORKLOADS = {
     'two': (dict(), [(0, 1, 3), (0, 1, 20)], False),
     'two-preconnected': (dict(), [(0, 1, 20), (0, 1, 3)], True),
     'three': (dict(), [(0, 1, 1), (0, 1, 9), (0, 1, 2)], False),
+    # the route names no next hop ("use the session that is there"); the session exists before the bundles are handed over
+    'default-session-preconnected': (dict(routes={0: [('^dtn://n1/.*', 1, 'unnamed')], 1: []}), [(0, 1, 5), (0, 1, 12)], True),
     'both-ways': (dict(listen=[0, 1]), [(0, 1, 6), (1, 0, 7)], False),
     # node 1 has no configured route back: only the route the adaptor adds for an established session carries the reply
     # the session is terminated by the user after the first bundle has crossed; the second bundle is handed over
@@ -130,6 +132,12 @@ def run_nodes(params, known):
         fin = [(p, a) for (p, _path, m, a) in sig.log if m == 'recv_bundle_finished']
         if len(fin) < len(sends) or any(a[2] != 'success' for (_p, a) in fin):
             viol('receptions-announced-differ-from-bundles-sent', repr(fin), case)
+        if preconnect:
+            # the session was there before anything was handed over: nothing waits, no further connection is asked for
+            opened = [a for (p, _path, m, a) in sig.log if m == 'connection_opened']
+            if len(fin) != len(sends) or len(opened) != 2:
+                viol('bundle-crossed-more-than-once-over-an-existing-session', '%d receptions of %d bundles, %d contacts opened (two ends of one connection expected)'
+                     % (len(fin), len(sends), len(opened)), case)
         return honoured
 
     if len(sends) == 1:
